@@ -81,7 +81,13 @@ class MatchScenario:
 
 
 def produce_regex_summary(I, func, self_val, args, kwargs, node, fr):
-    I.run.event("produce_regex", y2r=self_val)
+    # what the config singleton holds at the moment the regex is generated (the node classes read the full-match flags now)
+    from .models import cfg_key
+    from .values import DictV as _DictV
+    cfg = I.run.const_cache.get(("$cfg", "obj"))
+    store = cfg.fields.get("global_info") if isinstance(cfg, Obj) else None
+    snap = {cfg_key(k): I.expr_of(v) for k, v in store.pairs} if isinstance(store, _DictV) else {}
+    I.run.event("produce_regex", y2r=self_val, config=snap)
     return Str((Hole("REGEX", "regex", True),))
 
 
